@@ -48,6 +48,10 @@ pub fn exec(a: &[&str]) -> String {
             let owned = s.to_owned();
             let other = DnaString::from_bytes(&bytes);
             let eq = s == other.slice(0, other.len());
+            // the view against its own reverse-complement view (same backing string, same window): equal iff the window is its
+            // own reverse complement - in particular for empty windows
+            let s_rc = s.rc();
+            let eqrc = (s == s_rc) as u8 + 2 * (s_rc == s) as u8 + 4 * (s == s_rc.rc()) as u8;
             let pos: usize = a[4].parse().unwrap();
             // `get_kmer`'s range check is a `debug_assert!`: in the release profile a k-mer that does not fit
             // the view has no "corresponding substring", so the call is outside C15's quantifier and is not made
@@ -55,9 +59,9 @@ pub fn exec(a: &[&str]) -> String {
             let fits = pos + KTYPES.iter().find(|t| t.0 == a[3]).map(|t| t.1).unwrap() <= s.len();
             let km = if !fits && !cfg!(debug_assertions) { "panic".to_string() } else { std::panic::catch_unwind(std::panic::AssertUnwindSafe(|| with_named_kmer!(a[3], kmer_at, &s, pos))).unwrap_or_else(|_| "panic".to_string()) };
             format!(
-                "{}|bytes={} ascii={} str={} disp={} owned={} eq={} kmer={} dbg={}",
+                "{}|bytes={} ascii={} str={} disp={} owned={} eq={} eqrc={} kmer={} dbg={}",
                 tr.join(";"), show_digits(&bytes), txt(&s.ascii()), txt(s.to_dna_string().as_bytes()), txt(format!("{}", s).as_bytes()),
-                show_t(&owned), eq as u8, km, txt(format!("{:?}", s).as_bytes())
+                show_t(&owned), eq as u8, eqrc, km, txt(format!("{:?}", s).as_bytes())
             )
         }
         "ham" => {
@@ -109,6 +113,25 @@ pub fn gen(rng: &mut Rng, tier: &str) -> String {
         let s1 = emb(rng, &core, a1, pad1, r1);
         let s2 = emb(rng, &other, a2, pad2, r2);
         return format!("C15 ham {} {} {} {} {} {} {}", show_digits(&s1), show_digits(&s2), a1, r1 as u8, a2, r2 as u8, n);
+    }
+    if rng.chance(1, 8) {
+        // a sequence equal to its own reverse complement, viewed through symmetric windows and rc's: such views equal their rc views
+        let m = rng.below(40);
+        let half: Vec<u8> = (0..m).map(|_| rng.below(4) as u8).collect();
+        let mut seq = half.clone();
+        seq.extend(half.iter().rev().map(|b| 3 - b));
+        let mut cur_len = seq.len();
+        let mut ops = Vec::new();
+        for _ in 0..rng.range(1, 5) {
+            if rng.chance(1, 2) { ops.push("r".to_string()); } else {
+                let a = rng.below(cur_len / 2 + 1);
+                ops.push(format!("s{}-{}", a, cur_len - a));
+                cur_len -= 2 * a;
+            }
+        }
+        let (kt, k) = *rng.pick(&KTYPES);
+        let pos = if cur_len >= k { rng.below(cur_len - k + 1) } else { 0 };
+        return format!("C15 slice {} {} {} {}", show_digits(&seq), ops.join(","), kt, pos);
     }
     let len = if rng.chance(1, 10) { rng.range(256, 300) } else { crate::c14::boundary_len(rng) + rng.below(40) };
     let seq: Vec<u8> = (0..len).map(|_| rng.below(4) as u8).collect();
